@@ -6,6 +6,7 @@ import types
 import numpy as np
 from common import text, U
 
+EXTRA_COQ_FILES = ('GenFacts/ConstantsOK.v',)
 RULE = ('per representation code: every range edge +-2, UVARI form boundaries, string lengths around 127/128, 255/256, '
         '16383/16384, non-ASCII text, DTIME microsecond rounding boundaries and time zones, OBNAME/OBJREF field edges, '
         'plus seeded random values; executed in a seeded random order with equal-but-distinct cache keys interleaved '
